@@ -197,11 +197,35 @@ def _is_hand(x):
     return False
 
 
-def replay_case(case, seed, chain=True):
+def session_obs(text, flags):
+    """the same module in a real pytest session of the plugin with `report` next to the approved categories (every
+    pending category is displayed by the plugin's report loop, only the approved ones may be written)"""
+    import shutil
+    import tempfile
+    from . import session_driver as sd, srcio
+    from .drivers_replay import shown_categories
+    d = Path(tempfile.mkdtemp(prefix="verif_asn_"))
+    try:
+        srcio.write_source(d / "test_case.py", text)
+        r = sd.run_fork(d, ["--inline-snapshot=" + ",".join(list(flags) + ["report"])], timeout=120)
+        obs = {"log": r["log"], "categories": shown_categories(r["stdout"]), "import_error": None, "finish_error": None,
+               "files": {"test_case.py": srcio.read_source(d / "test_case.py")}}
+        if r["timed_out"] or r["session"] is None or "INTERNALERROR" in r["stdout"] or r["rc"] not in (0, 1):
+            obs["finish_error"] = ["INTERNALERROR", r["stdout"][-600:], ""]
+        return obs
+    finally:
+        shutil.rmtree(d, ignore_errors=True)
+
+
+def replay_case(case, seed, chain=True, driver=None):
     from . import inline_driver
     rng = random.Random("%s|%s" % (case["id"], seed))
     g = RA.Gamma(rng, case["tm"], case["v"])
     text = RA.render(case["tm"], case["v"], g)
+    if driver == "session":
+        obs = session_obs(text, case["A"])
+        mism, new_term = judge(case, g, text, obs, seed)
+        return mism, {"atoms": g.atoms, "driver": "session"}, text, obs["files"]["test_case.py"]
     obs = inline_driver.run_session({"test_case.py": text}, case["A"])
     mism, new_term = judge(case, g, text, obs, seed)
     new_text = obs.get("files", {}).get("test_case.py")
@@ -253,13 +277,14 @@ def _passes_disabled(text):
 
 def _worker(args):
     cases, seed = args[0], args[1]
+    driver = args[2] if len(args) > 2 else None
     import contextlib
     import io
     out = []
     for case in cases:
         try:
             with contextlib.redirect_stderr(io.StringIO()):
-                mism, info, text, new_text = replay_case(case, seed)
+                mism, info, text, new_text = replay_case(case, seed, driver=driver)
             out.append({"id": case["id"], "mism": mism, "info": info, "text": text if mism else None,
                         "new": new_text if mism else None})
         except Exception:  # noqa
